@@ -128,7 +128,11 @@ def install():
         w = _current_world
         rank = dist.get_rank()
         members = tuple(dist.get_process_group_ranks(group if group is not None else dist.group.WORLD))
-        sig = ("all_gather", int(input_tensor.numel() * input_tensor.element_size()), int(output_tensor.numel() * output_tensor.element_size()))
+        # the communicator is part of the signature: two process groups over the same ranks (one per parameter group's distributor)
+        # never complete each other's collectives, whatever the buffer sizes
+        pg_name = getattr(group if group is not None else dist.group.WORLD, "group_name", None)
+        sig = ("all_gather", int(input_tensor.numel() * input_tensor.element_size()), int(output_tensor.numel() * output_tensor.element_size()),
+               str(pg_name))
         if w is not None:
             w.log(rank, "all_gather", phase="start", grp=list(members), inb=sig[1], outb=sig[2])
             w.gate(rank, members, sig)
@@ -198,9 +202,18 @@ def run_world(W: int, fn, seed: int = 0, timeout: float = 60.0, _retry: bool = T
         t.start()
     import time as _time
     deadline = _time.time() + timeout          # one limit for the whole world, not one per rank
-    for t in threads:
-        t.join(max(0.0, deadline - _time.time()))
-    if any(t.is_alive() for t in threads):
+    decided_at = None
+    while any(t.is_alive() for t in threads) and _time.time() < deadline:
+        for t in threads:
+            if t.is_alive():
+                t.join(0.05)
+        # once the gates have decided (deadlock / mismatch), ranks that already left their last gate may sit in the transport's own
+        # teardown barrier waiting for the aborted ones: that is the harness' teardown, not something to wait for
+        if world.verdict is not None:
+            decided_at = decided_at or _time.time()
+            if _time.time() - decided_at > 3.0:
+                break
+    if any(t.is_alive() for t in threads) and world.verdict is None:
         with world.lock:
             if world.verdict is None:
                 world.verdict = ("watchdog", {})
